@@ -79,6 +79,7 @@ type analysis struct {
 	inScope    map[*ssa.Package]bool
 	methodsBy  map[string][]*ssa.Function // method name -> concrete methods of in-scope types
 	goTargets  map[*ssa.Function]bool
+	retModel   map[*ssa.Function]*rootInfo // memo: the function returns memory of the model (a getter handing out a slice / map of the model uncopied)
 }
 
 func hasPrefix(name string, ps []string) bool {
@@ -251,14 +252,74 @@ func (a *analysis) root(v ssa.Value, depth int) rootInfo {
 		}
 		return best
 	case *ssa.Call:
-		// a value returned by a call: unknown provenance, treated as local EXCEPT the getters of the
-		// generic containers, which hand out memory of the model (set.entries() returns the map itself)
-		if f := x.Call.StaticCallee(); f != nil && f.Name() == "entries" {
-			return rootInfo{kind: rkModel, desc: "set.m (entries())"}
+		// a value returned by a call is local UNLESS the callee (of the two packages) returns memory
+		// of the model itself: Message.Signals() returns the layout's slice, set.entries() the map,
+		// GetSignalGroup the group's slice ...  Interface calls: any implementation that does.
+		if x.Call.IsInvoke() {
+			if it, ok := x.Call.Value.Type().Underlying().(*types.Interface); ok {
+				for _, g := range a.methodsBy[x.Call.Method.Name()] {
+					recv := g.Signature.Recv().Type()
+					if types.Implements(recv, it) || types.Implements(types.NewPointer(recv), it) {
+						if r := a.returnsModel(g, depth+1); r != nil {
+							return *r
+						}
+					}
+				}
+			}
+		} else if f := x.Call.StaticCallee(); f != nil {
+			if r := a.returnsModel(f, depth+1); r != nil {
+				return *r
+			}
 		}
 		return rootInfo{kind: rkLocal, desc: "call result"}
 	}
 	return rootInfo{kind: rkLocal, desc: fmt.Sprintf("%T", v)}
+}
+
+// returnsModel: does f (a function of the two packages) return a slice / map / pointer-to-element that
+// designates memory of the model (not a copy)?  Only reference-like results count.
+func (a *analysis) returnsModel(f *ssa.Function, depth int) *rootInfo {
+	if f.Origin() != nil && len(f.Blocks) == 0 {
+		f = f.Origin()
+	}
+	if r, ok := a.retModel[f]; ok {
+		return r
+	}
+	a.retModel[f] = nil // recursion guard
+	if depth > 30 || len(f.Blocks) == 0 {
+		return nil
+	}
+	inScope := false
+	if f.Pkg != nil && a.inScope[f.Pkg] {
+		inScope = true
+	} else if f.Object() != nil && f.Object().Pkg() != nil && strings.HasPrefix(f.Object().Pkg().Path(), pkgPath) {
+		inScope = true
+	}
+	if !inScope {
+		return nil
+	}
+	for _, b := range f.Blocks {
+		for _, ins := range b.Instrs {
+			ret, ok := ins.(*ssa.Return)
+			if !ok {
+				continue
+			}
+			for _, v := range ret.Results {
+				switch v.Type().Underlying().(type) {
+				case *types.Slice, *types.Map:
+				default:
+					continue
+				}
+				if r := a.root(v, depth+1); r.kind == rkModel || r.kind == rkGlobal {
+					rr := r
+					rr.desc = r.desc + " (returned by " + fnName(f) + ")"
+					a.retModel[f] = &rr
+					return &rr
+				}
+			}
+		}
+	}
+	return nil
 }
 
 type site struct {
@@ -351,16 +412,15 @@ func (a *analysis) callStores(f *ssa.Function, c *ssa.CallCommon, p token.Pos, i
 				}
 			}
 		case "append":
-			// append(shared[:k], ...) with spare capacity writes the shared backing array even when
-			// the result is not stored back; append(shared, ...) stored back shows as a field store
+			// append(shared, ...) writes the spare capacity of the shared backing array, whether or not
+			// the result is stored back (a mutator stores it back: `x.f = append(x.f, v)` is an S1 site
+			// of its own; on a read path any append to memory of the model is a write)
 			if len(c.Args) > 0 {
-				if sl, ok := c.Args[0].(*ssa.Slice); ok && sl.High != nil {
-					r := a.root(sl.X, 0)
-					if r.kind == rkGlobal && !isInit {
-						add("global "+r.desc+" (append in place)", "S4", p)
-					} else if r.kind == rkModel {
-						add(r.desc+" (append in place)", "S2", p)
-					}
+				r := a.root(c.Args[0], 0)
+				if r.kind == rkGlobal && !isInit {
+					add("global "+r.desc+" (append)", "S4", p)
+				} else if r.kind == rkModel {
+					add(r.desc+" (append)", "S2", p)
 				}
 			}
 		}
@@ -488,7 +548,7 @@ func main() {
 	prog, spkgs := ssautil.AllPackages(pkgs, ssa.BuilderMode(0))
 	prog.Build()
 	a := &analysis{prog: prog, modelTypes: map[string]bool{}, inScope: map[*ssa.Package]bool{},
-		methodsBy: map[string][]*ssa.Function{}, goTargets: map[*ssa.Function]bool{}}
+		methodsBy: map[string][]*ssa.Function{}, goTargets: map[*ssa.Function]bool{}, retModel: map[*ssa.Function]*rootInfo{}}
 	var main *ssa.Package
 	for i, p := range spkgs {
 		if p == nil {
